@@ -1,13 +1,13 @@
-N = {"quick": (250, 50), "thorough": (5000, 1000)}
+N = {"quick": (160, 40), "thorough": (5000, 1000)}
 PROP = dict(
     id="C17",
     module="FV.C17.Props",
     coq_targets=["theories/C17/Props.vo"],
     theorems=["hmtx_reconstructs", "num_long_minimal", "hhea_extrema_exact", "clamp_i16_exact_in_range",
-              "composite_limits_eq_recursive", "has_limits_unique", "composite_limits_u16_refuted",
+              "composite_limits_eq_recursive", "has_limits_unique", "composite_limits_overflow_reported",
               "maxp_simple_maxima", "head_bbox_is_union", "composite_bbox_covers",
               "composite_bbox_strict_refuted", "loca_short_roundtrips", "loca_long_needed",
-              "xavg_counts_all_glyphs", "xavg_exact_is_rounded_mean", "xavg_f32_refuted",
+              "xavg_counts_all_glyphs", "xavg_exact_is_rounded_mean", "xavg_exact_for_precise_rounding",
               "first_last_char_index", "unicode_range_bits_correct", "codepage_bits_set_only",
               "max_context_is_max", "check_font_sound"],
     prelude="Require Import FV.C17.Model.\nFrom Coq Require Import List NArith ZArith QArith Bool.",
@@ -20,8 +20,8 @@ PROP = dict(
          "65535); (C) whole fonts compiled in-process from generated UFOs (empty / simple / composite / nested / "
          "scaled / flipped components, negative bearings, zero advances, trailing runs, supplementary-plane and "
          "code-page trigger code points, liga/calt/kern/rsub features, vertical metrics) decoded by a hand-written "
-         "glyf/hmtx/hhea/maxp/head/OS2 reader and every summary field recomputed; plus two fixed fonts (a composite "
-         "of 70000 points; a mean advance just below a rounding tie). Non-trivial = non-empty input / has a "
+         "glyf/hmtx/hhea/maxp/head/OS2 reader and every summary field recomputed; plus three fixed fonts (a composite "
+         "of 70000 points, which must be rejected with a diagnostic; a mean advance just below a rounding tie; glyf over 128 KiB). Non-trivial = non-empty input / has a "
          "composite / has an outline; distinct = distinct input.",
     trusted_base=["Coq 8.16.1 kernel (coqc, vm_compute for case evaluation and for the table-sortedness lemma)",
                   "hand-written model FV.C17.Model tied to fontbe::metrics_and_limits (hooks), glyphs.rs "
@@ -30,7 +30,7 @@ PROP = dict(
                   "Rust harness /verif/harness (vh c17): its own glyf/hmtx/hhea/maxp/head/OS2 decoder; read-fonts "
                   "for cmap, GSUB, GPOS",
                   "the Unicode-range table in the model is compared with the one parsed from os2.rs on every run"],
-    assumptions=["f64 modelled by Q (composite boxes), f32 by rounding Q to 24 significant bits (xAvgCharWidth)",
+    assumptions=["f64 modelled by Q (composite boxes) and by rounding Q to 53 significant bits where rounding matters (xAvgCharWidth); that this rounding is monotone and exact on the 2^-20 grid is a hypothesis of xavg_exact_for_precise_rounding, not proved for the executable model",
                  "HashMap/HashSet iteration order = an arbitrary list order (theorems quantify over it)",
                  "i32 intermediate arithmetic of MetricsBuilder modelled in Z (no overflow for |bounds| <= 65535)",
                  "simple glyphs have fewer than 65536 points and contours (glyf format limit)",
